@@ -37,3 +37,6 @@ func (m *LoadBalancedManager) VBalancers() []VBalancer {
 func (s *Server) VOpenSessions() int            { return s.openSessions() }
 func (s *Server) VAddSession(sess *yamux.Session) { s.addSession(sess) }
 func (s *Server) VRemoveSession(sess *yamux.Session) { s.removeSession(sess) }
+
+// VShed closes up to n sessions exactly as Rebalance does.
+func (s *Server) VShed(n int) { s.shedSessions(n) }
